@@ -1002,6 +1002,28 @@ def data_deps(body, place_or_op, through_calls=True, max_steps=6000):
     return a, b, c
 
 
+def self_fields_read(body, place_or_op, through_calls=True):
+    """names of the fields of `self` (parameter 1) read in the backward dependence closure of a value"""
+    seen, calls, _ = data_deps(body, place_or_op, through_calls)
+    out = set()
+    p0 = place_or_op if "l" in place_or_op else op_place(place_or_op)
+    if p0 is not None and p0["l"] == 1 and place_fields(p0):
+        out.add(str(place_fields(p0)[0]))
+    for s in body.sites():
+        n = s.node
+        if s.si is not None and n["k"] == "assign" and n["dst"]["l"] in seen:
+            rv = n["rv"]
+            for p in [op_place(o) for o in rv.get("ops", [])] + [rv.get("place")]:
+                if p is not None and p["l"] == 1 and place_fields(p):
+                    out.add(str(place_fields(p)[0]))
+    for s in calls:
+        for a in s.node["args"]:
+            p = op_place(a)
+            if p is not None and p["l"] == 1 and place_fields(p):
+                out.add(str(place_fields(p)[0]))
+    return out
+
+
 # ------------------------------------------------------------------------------------------
 # branch conditions
 
